@@ -111,9 +111,11 @@ FsDropInService::~FsDropInService() {
 
 void FsDropInService::tick() {
   if (drop_in_dir_deleted_) {
-    if (prepDropInWatcher(drop_in_dir_) == 0) {
-      drop_in_dir_deleted_ = false;
-    }
+    // prepDropInWatcher() clears drop_in_dir_deleted_ itself, while it still
+    // holds event_loop_mutex_. Clearing it here, after the lock is gone, can
+    // overwrite the "deleted again" the watcher thread has set in between and
+    // leave the service without any watch for good.
+    prepDropInWatcher(drop_in_dir_);
   }
 }
 
@@ -196,6 +198,9 @@ int FsDropInService::prepDropInWatcher(const std::string& dir) {
   if (prepDropInWatcherEventLoop(dir)) {
     return 1;
   }
+  // The directory is being watched again. Any later deletion is reported by
+  // the watcher thread, which needs event_loop_mutex_ to say so.
+  drop_in_dir_deleted_ = false;
 
   auto de = Fs::readDir(dir, Fs::DE_FILE);
   // TODO(dschatzberg): Report error
